@@ -88,6 +88,20 @@ def judge(ctx, sums, label, cfg="ConcTrace.cfg"):
             else:
                 other += 1
                 log("note: line %d of %s (%s) rejected; it belongs to %s" % (r["hwm"], t["name"], ev.get("ev"), sorted(own)))
+                if ctx.pid == "C09":
+                    # the rest of the history cannot be replayed, but its end can still be judged:
+                    # ConcTrace's Quiesce action on the recorded quiesce line (nothing may be pending)
+                    last = trace_lines(t["path"], t["events"], t["events"])
+                    if last and last[0].get("ev") == "quiesce":
+                        mini = ctx.path("mini-" + t["name"] + ".ndjson")
+                        with open(mini, "w") as f:
+                            f.write(json.dumps({"ev": "reset"}) + "\n" + json.dumps(last[0]) + "\n")
+                        rr = tlc_trace(ctx, "ConcTrace.tla", cfg, mini)
+                        if not rr["accepted"]:
+                            sig = "c09:quiesce:%s" % ",".join(sorted(set(last[0].get("kinds", []))))
+                            rp = save_replay(ctx, t["name"] + "-quiesce", [t["path"], mini],
+                                             {"property": ctx.pid, "cmd": t["cmd"], "event": last[0], "row": t["row"]})
+                            report_violation(ctx, sig, "calls never returned: %s" % json.dumps(last[0])[:600], rp)
             # a rejected hook line leaves the monitor state undefined for the rest of this history: stop this trace here
     ctx.extra["lines_rejected_for_other_properties"] = other
     ctx.extra.setdefault("histories", 0)
